@@ -65,6 +65,7 @@ package scanner
 //@ loop 2 invariant f != nil && f.client != nil
 //@ loop 2 invariant r.end == rcv.res.end
 //@ loop 2 invariant rcv.res.start >= 0 && rcv.res.start <= rcv.res.end + 1 && rcv.res.end < 4611686018427387904 ==> rcv.res.start <= r.start && r.start <= r.end + 1
+//@ loop 1 step-assert [a-range-is-left-only-when-every-index-of-it-has-been-delivered] rcv.res.start >= 0 && rcv.res.start <= rcv.res.end + 1 && rcv.res.end < 4611686018427387904 ==> r.start == r.end + 1
 //@ at deliver assert [batch-starts-at-the-cursor-with-the-entries-just-fetched] deliver.arg0.Start == r.start && deliver.arg0.Entries == resp.Entries && rt.res == nil
 //@ at deliver assert [never-delivers-past-the-range] rcv.res.start >= 0 && rcv.res.start <= rcv.res.end + 1 && rcv.res.end < 4611686018427387904 ==> 1 <= len(resp.Entries) && r.start + len(resp.Entries) <= r.end + 1
 //@ loop 2 step-assert [cursor-advances-by-what-was-delivered-and-only-then] (deliver.called && rcv.res.start >= 0 && rcv.res.start <= rcv.res.end + 1 && rcv.res.end < 4611686018427387904 ==> r.start == before(deliver, r.start) + len(deliver.arg0.Entries)) && (!deliver.called ==> r.start == before(rt, r.start))
